@@ -114,7 +114,16 @@ def c04(ctx):
                           found_input=False)
     # (2) end to end, utility methods: checker on the observed result + listing-order invariance
     n2 = n_cases(ctx, 150, 3000)
-    reqs = [ctx.replay['request']] if ctx.replay and 'request' in ctx.replay else [gen.utility_request(rnd) for _ in range(n2)]
+    # a third of the requests carry biases; fatigue is left out of this stream: it consumes its seeded draws in listing order by
+    # design (C17), every other bias is a function of the decision problem, not of its listing
+    order_free = [b for b in gen.BIASES if b != 'fatigue']
+
+    def g2(rnd):
+        req = gen.utility_request(rnd)
+        if rnd.random() < 0.35:
+            req = gen.add_biases(rnd, req, names=[rnd.choice(order_free) for _ in range(rnd.choice([1, 1, 2]))], prob_mix=False)
+        return req
+    reqs = [ctx.replay['request']] if ctx.replay and 'request' in ctx.replay else [g2(rnd) for _ in range(n2)]
     terms, keep = [], []
     for req in reqs:
         res = ctx.pipe.call({'op': 'decide', 'req': req})
@@ -406,6 +415,15 @@ def c05_cred(ctx, reqs, ress):
         ctx.notes.append('component overlay for the credibility matrix no longer compiles; matrix correspondence skipped')
         return []
     rnd = ctx.rnd
+    # the distillation function a request is evaluated with is its own one, or the documented default 0.3 - 0.15 x
+    for req, res in zip(reqs, ress):
+        df = ((res.get('evalInput') or {}).get('MethodParameters') or {}).get('DistillationFun') if req.get('preferenceFunction') == 'electreIII' else None
+        if isinstance(df, dict):
+            want = (req.get('methodParameters') or {}).get('electreDistillation') or {'a': -0.15, 'b': 0.3}
+            if (df.get('A'), df.get('B')) != (want.get('a', 0), want.get('b', 0)):
+                ctx.violation('an electreIII request was evaluated with a distillation function that is neither its own nor the default',
+                              {'request': req, 'evaluated_with': df, 'expected': want, 'response': res.get('resp')}, {'method': 'electreIII'})
+                break
     more = [veto_grid(rnd) for _ in range(n_cases(ctx, 250, 5000))]
     mres = [ctx.pipe.call({'op': 'trace', 'req': r}) for r in more]
     terms, keep = [], []
@@ -608,13 +626,42 @@ def seq_with(name):
     return g
 
 
+def c16_extra(ctx, req, res, info, v, facts):
+    """the range a criterion of the request is mirrored in is the range the request declares for it"""
+    if info['bias'].get('name') != 'preferenceReversal':
+        return
+    declared = {c['id']: c.get('valuesRange') for c in req.get('criteria') or []}
+    for c in (info['stage'].get('curBefore') or {}).get('Criteria') or []:
+        if c.get('Id') in declared:
+            want = declared[c['Id']]
+            got = c.get('ValuesRange')
+            gotp = None if not got else {'min': got.get('Min'), 'max': got.get('Max')}
+            if (want or None) != gotp and not (want and gotp and float(want['min']) == gotp['min'] and float(want['max']) == gotp['max']):
+                ctx.violation('preference reversal works on criterion %s with a declared range %s that is not the one the request declares (%s)'
+                              % (c['Id'], gotp, want), {'request': req, 'bias': info['bias'], 'before': info['stage'].get('curBefore')}, facts)
+                return
+
+
 @check('C16')
 def c16(ctx):
-    stage_check(ctx, 'C16', ['preferenceReversal'], [(1, seq_with('preferenceReversal'))], 200, 4000,
+    def mix_then_reverse(rnd):
+        """a criterion-adding bias first (they read value ranges of existing criteria), then the reversal; declared ranges not starting at 0"""
+        req = gen.biased_request(rnd, names=[rnd.choice(['criteriaMixing', 'criteriaMixing', 'criteriaConcealment', 'anchoring', 'fatigue']),
+                                             'preferenceReversal'], prob_mix=False)
+        for c in req['criteria']:
+            vals = [a['criteria'][c['id']] for a in req['knownAlternatives'] if c['id'] in a['criteria']]
+            if vals and rnd.random() < 0.8:
+                c['valuesRange'] = {'min': min(vals) - rnd.choice([0.0, 1.0, 2.5]), 'max': max(vals) + rnd.choice([1.0, 0.5, 3.0])}
+        p = req['biases'][1]['props']
+        p['ratio'] = rnd.choice([1.0, 1.0, 0.75])
+        p.pop('max', None)
+        p.pop('min', None)
+        return req
+    stage_check(ctx, 'C16', ['preferenceReversal'], [(3, seq_with('preferenceReversal')), (1, mix_then_reverse)], 200, 4000,
                 'requests over all methods with preference reversal alone, after and before other biases; all orderings and ratios, '
                 'with and without declared ranges, considered set equal to / smaller than the known set; one evaluation = one traced '
                 'application of the bias; distinct = (method, ordering, sizes, neighbouring biases)',
-                agree_names=['preferenceReversal'], search_gens=[(1, seq_with('preferenceReversal'))])
+                agree_names=['preferenceReversal'], search_gens=[(1, seq_with('preferenceReversal'))], extra=c16_extra)
     return ctx.finish(
         'traced applications of preferenceReversal inside random bias sequences over all methods (all orderings, ratios, declared and '
         'observed ranges, considered = / subset of known); distinct = (method, ordering, sizes, bias sequence)', './check C16')
@@ -662,6 +709,10 @@ def c07_extra(ctx, req, res, info, v, facts):
         ctx.violation('%s changed data it does not report (alternatives split, other values, criteria or parameters)' % name,
                       {'request': req, 'bias': info['bias'], 'before': info['stage'].get('curBefore'),
                        'after': info['stage'].get('curAfter')}, facts)
+    if len(v) > SCOL['reported'] and v[SCOL['reported']] != 0:
+        ctx.violation('after %s the criteria are not the earlier ones minus the reported omissions plus the reported additions' % name,
+                      {'request': req, 'bias': info['bias'], 'before': info['stage'].get('curBefore'),
+                       'after': info['stage'].get('curAfter'), 'report': info['stage'].get('props')}, facts)
 
 
 @check('C07')
@@ -753,7 +804,7 @@ def c06(ctx):
                     ctx2.violation('listing the alternatives in another order changes ELECTRE indices or links',
                                    {'request': req, 'permuted': pr, 'result': base.get('resp'), 'permuted_result': r2.get('resp') or r2.get('err')},
                                    {'method': 'electreIII'})
-            for m in (-3, 1, 10):
+            for m in (-3, 1, 10, -30, 30):
                 sr = json.loads(json.dumps(req))
                 for v in sr['methodParameters']['electreCriteria'].values():
                     v['k'] = v['k'] * (2.0 ** m)
@@ -767,7 +818,7 @@ def c06(ctx):
     return method_check(ctx, 'C06', [(2, dominated), (2, veto_heavy), (1, gen_method('electreIII'))], 300, 6000,
                         'electreIII requests with a planted dominated/dominating pair (ties on some criteria) inside 1-4 further '
                         'alternatives, plus random requests; every dominating and identical pair of each response is checked; '
-                        'metamorphic groups: two listing-order permutations and weights x 2^m (m = -3, 1, 10) per request; when the correspondence '
+                        'metamorphic groups: two listing-order permutations and weights x 2^m (m = -3, 1, 10, -30, 30) per request; when the correspondence '
                         'breaks, a search phase of 1500+ veto-heavy cases looks for a pair violating dominance',
                         agree_col='agree', search_gens=[(1, veto_heavy)])
 
@@ -834,11 +885,63 @@ def c08(ctx):
                     if f4 != must:
                         ctx2.violation('applyProbability %s %s' % (p, 'did not fire' if must else 'fired'),
                                        {'request': r4, 'echo': o4['resp']['biases']}, {})
-    ctx.before_finish = meta
+    def service_vs_library(ctx2):
+        """the HTTP service (one process serving the whole sequence) must answer every request exactly as the library does on a freshly
+        decoded value: optional switches left out (biasApplyRandomSeed -> 0, applyProbability -> 1, disabled -> false) are defaults, never
+        leftovers of an earlier request"""
+        rnd = ctx2.rnd
+        srv = Server(ctx2.binary)
+        hist = []
+        # a leftover may sit in a per-processor cache of the runtime: the recorded sequence is replayed many times over
+        replayed = list((ctx2.replay or {}).get('service_history') or []) * 40
+        try:
+            for _ in range(len(replayed) or n_cases(ctx2, 70, 1500)):
+                req = replayed.pop(0) if replayed else g(rnd)
+                for b in ((req.get('biases') or []) if not (ctx2.replay or {}).get('service_history') else []):
+                    r = rnd.random()
+                    if r < 0.35:
+                        b.pop('applyProbability', None)
+                    elif r < 0.8:
+                        b['applyProbability'] = rnd.choice([0.5, 0.25, 0.75, round(rnd.random(), 3)])
+                    if rnd.random() < 0.3:
+                        b.pop('disabled', None)
+                if (ctx2.replay or {}).get('service_history'):
+                    pass
+                elif rnd.random() < 0.5:
+                    req.pop('biasApplyRandomSeed', None)
+                else:
+                    req['biasApplyRandomSeed'] = rnd.choice([1, 2, 3, 7, 42, 908, rnd.randint(0, 10 ** 6)])
+                hist.append(req)
+                st, out = srv.post(json.dumps(req).encode())
+                lib = ctx2.pipe.call({'op': 'decide', 'req': req})
+                ctx2.count('service-vs-library/%s' % ('seed omitted' if 'biasApplyRandomSeed' not in req else 'seed given'))
+                ctx2.evaluations += 1
+                try:
+                    sj = json.loads(out) if st == 200 else None
+                except Exception:
+                    sj = 'not JSON'
+                same = (st == 200 and lib.get('ok') and sj == lib.get('resp')) or (st == 400 and not lib.get('ok'))
+                if not same:
+                    ctx2.violation('the service answers a request differently from the library on the same request (after other requests)',
+                                   {'request': req, 'service_history': hist[-4:], 'service': [st, (out or b'').decode('utf8', 'replace')[:3000]],
+                                    'library': lib.get('resp') or lib.get('err')}, {})
+                    break
+        finally:
+            srv.close()
+
+    def both(ctx2):
+        meta(ctx2)
+        service_vs_library(ctx2)
+    ctx.before_finish = both
+    if ctx.replay and ctx.replay.get('service_history'):
+        ctx.check_proofs()
+        service_vs_library(ctx)
+        return ctx.finish('replay of a sequence of requests against the service', './check C08 --replay <file>')
     return method_check(ctx, 'C08', [(1, g)], 300, 6000,
                         'random requests over all methods with 1-5 biases, probabilities in {0, 1, random}, disabled entries with known and '
                         'unknown names at every position; echoes checked against the bias-apply stream of the seed; metamorphic: insert a '
-                        'disabled bias, replace all other biases, set own probability to 0 / 1', agree_col='C08')
+                        'disabled bias, replace all other biases, set own probability to 0 / 1; the real service, one process for a sequence of requests '
+                        'that leave optional switches out, compared with the library on freshly decoded values', agree_col='C08')
 
 
 def reduced_request(req, stage):
@@ -893,10 +996,40 @@ def c15(ctx):
                           {'request': req, 'reduced': red, 'response': res.get('resp'), 'reduced_response': r2.get('resp') or r2.get('err')},
                           {'method': req['preferenceFunction'], 'bias': 'criteriaOmission'})
     ctx.notes.append('reduced-request comparisons: %d' % done)
+    # `strongest` is the exact reverse of `weakest` (and strongestByProbability of weakestByProbability under one seed): the full orderings
+    # as the code itself reports them when every criterion is omitted (ratio 1), on problems with tied importances
+    rnd = ctx.rnd
+    rev_replay = bool(ctx.replay and 'orderings' in ctx.replay)
+    for _ in range(1 if rev_replay else (n_cases(ctx, 60, 1200) if not ctx.replay else 0)):
+        base = ctx.replay['request'] if rev_replay else gen.any_request(rnd)
+        if not rev_replay and rnd.random() < 0.6:   # tied importances: equal weights / k, identical columns
+            mp = base.get('methodParameters') or {}
+            if isinstance(mp.get('weights'), dict) and base['preferenceFunction'] != 'choquetIntegral':
+                for k in mp['weights']:
+                    mp['weights'][k] = rnd.choice([2.0, 2.0, 1.0])
+            for v in (mp.get('electreCriteria') or {}).values():
+                v['k'] = rnd.choice([2.0, 2.0, 1.0])
+        n = len(base['criteria'])
+        seed = ctx.replay['seed'] if rev_replay else gen.some_seed(rnd)
+        full = {}
+        for od in ('weakest', 'strongest', 'weakestByProbability', 'strongestByProbability'):
+            r = json.loads(json.dumps(base))
+            r['biases'] = [{'name': 'criteriaOmission', 'props': {'ratio': 1.0, 'min': 0, 'max': n, 'ordering': od, 'randomSeed': seed}}]
+            t = ctx.pipe.call({'op': 'trace', 'req': r})
+            st = [x for x in (t.get('stages') or []) if x.get('name') == 'criteriaOmission']
+            pr = st[0].get('props') if st else None
+            full[od] = [c.get('id') for c in (pr or {}).get('omittedCriteria') or []] if isinstance(pr, dict) else None
+        ctx.count('metamorphic/strongest-is-reverse')
+        ctx.evaluations += 1
+        for a, b in (('weakest', 'strongest'), ('weakestByProbability', 'strongestByProbability')):
+            if full[a] is not None and full[b] is not None and len(full[a]) == n and full[b] != full[a][::-1]:
+                ctx.violation('%s is not the exact reverse of %s' % (b, a), {'request': base, 'orderings': full, 'seed': seed},
+                              {'method': base['preferenceFunction'], 'bias': 'criteriaOmission'})
     return ctx.finish(
         'traced applications of criteriaOmission inside random bias sequences over all methods: five orderings and seeds, ratios on '
         'floor boundaries, min/max clamps, superfluous parameter entries; plus, where omission is the first bias, the decision is compared '
-        'with the decision for the request with the omitted criteria deleted; distinct = (method, ordering, sizes, bias sequence)',
+        'with the decision for the request with the omitted criteria deleted; the full weakest / strongest (and by-probability) orderings '
+        'reported by the code on problems with tied importances must be reverses of each other; distinct = (method, ordering, sizes, bias sequence)',
         './check C15')
 
 
@@ -1300,6 +1433,11 @@ def late_rejections(rnd, req):
         mod('superfluous electre criterion', lambda r: r['methodParameters']['electreCriteria'].update(
             zz_undeclared={'k': 1.0, 'q': {'a': 0, 'b': 1.0}, 'p': {'a': 0, 'b': 2.0}}))
     mod('huge value on one alternative', lambda r: r['knownAlternatives'][rnd.randrange(n)]['criteria'].update({r['criteria'][0]['id']: 1e300}))
+    # values whose aggregate leaves the finite range: the decision may hold +Inf / NaN, which JSON cannot carry
+    mod('values near the largest finite number on one alternative',
+        lambda r: r['knownAlternatives'][rnd.randrange(n)]['criteria'].update({c['id']: 1e308 for c in r['criteria']}))
+    mod('values near the largest finite number on every alternative',
+        lambda r: [a['criteria'].update({c['id']: (-1.5e308 if i % 2 else 1.5e308) for c in r['criteria']}) for i, a in enumerate(r['knownAlternatives'])])
     return out
 
 
@@ -1516,6 +1654,9 @@ def c20(ctx):
                     known = gen.METHODS if name == 'unknown method' else gen.BIASES
                     if not all(k in j2.get('error', '') for k in known):
                         ctx.violation('the error for an %s does not list the available names' % name, {'request': r, 'answer': j2}, {'what': name})
+            for name, r in late_rejections(rnd, req):
+                st5, _ = shot(json.dumps(r).encode(), name, None, r)
+                ctx.signatures.add(('late', name, m, st5))
             for r in stress_valid(rnd, req):
                 st4, _ = shot(json.dumps(r).encode(), 'valid request stressing termination', 200, r)
                 ctx.signatures.add(('stress', json.dumps(r['methodParameters']['electreDistillation']), st4))
